@@ -33,6 +33,8 @@ def cases(tier, seed):
     for src in ("object-inmem", "file"):
         yield f"iterative/{src}", {"what": "iterative", "src": src, "seed": sd}
     yield "streams", {"what": "streams", "seed": sd}
+    yield "pool-size", {"what": "pool-size", "seed": sd}
+    yield "hash-seed", {"what": "hash-seed", "seed": sd}
 
 
 def nontrivial(inp):
@@ -68,6 +70,52 @@ def check(inp):
             s = joker.iterative_rejection_sample(data, lib if inp["src"] == "object-inmem" else path, n_requested_samples=2, init_batch_size=4,
                                                  growth_factor=2, in_memory=inp["src"] == "object-inmem")
             return _tbl(s)
+    if inp["what"] == "pool-size":
+        # equal seed, inputs and batching give the same output on pools of different size (the number of batches, not of workers, decides the streams)
+        class WidePool:
+            size = 3
+
+            def map(self, f, tasks, callback=None):
+                return [f(t) for t in tasks]
+
+            def close(self):
+                pass
+
+        from thejoker import RVData
+        # weakly informative data and a larger library, so that several samples are accepted (several batches of linear draws)
+        wdata = RVData(t=data.t, rv=data.rv * 0.05, rv_err=data.rv_err * 20.0, t_ref=data.t_ref)
+        wlib = prior.sample(size=48, rng=np.random.default_rng(inp["seed"] + 1), return_logprobs=True)
+        wpath = os.path.join(S.OUTDIR, f"c10_lib_{os.getpid()}.hdf5")
+        if os.path.exists(wpath):
+            os.unlink(wpath)
+        wlib.write(wpath)
+
+        def go(pool, which):
+            jk = TheJoker(prior, rng=np.random.default_rng(inp["seed"]), pool=pool)
+            if which == "rejection":
+                return _tbl(jk.rejection_sample(wdata, wpath, n_batches=2, n_linear_samples=2))
+            return _tbl(jk.iterative_rejection_sample(wdata, wpath, n_requested_samples=6, init_batch_size=24, growth_factor=2, n_batches=2, n_linear_samples=2))
+        for which in ("rejection", "iterative"):
+            if go(None, which) != go(WidePool(), which):
+                bad(f"same-output-on-pools-of-different-size[{which},n_batches=2]")
+        return fails
+    if inp["what"] == "hash-seed":
+        # a seeded draw does not depend on the interpreter's string-hash seed (no set-iteration order in the path of a draw)
+        import subprocess
+        import sys
+        code = ("import sys, numpy as np; sys.path.insert(0, %r); sys.path.insert(0, %r); import support as S; S.quiet(); "
+                "p = S.default_prior(poly_trend=3); s = p.sample(size=5, rng=np.random.default_rng(7), generate_linear=True); "
+                "print(','.join(repr(float(x)) for k in s.par_names for x in np.atleast_1d(s[k].value)))") % (os.path.dirname(os.path.abspath(__file__)), os.environ.get("VERIF_REPO", "/repo"))
+        outs = []
+        for hs in ("1", "2", "3"):
+            env = dict(os.environ, PYTHONHASHSEED=hs, PYTHONPATH=os.environ.get("VERIF_REPO", "/repo"))
+            r = subprocess.run([sys.executable, "-c", code], capture_output=True, text=True, env=env, timeout=600)
+            outs.append(r.stdout.strip().split("\n")[-1] if r.returncode == 0 else "ERR " + r.stderr[-200:])
+        if any(o.startswith("ERR") for o in outs):
+            bad("hash-seed-subprocess-failed", outs=outs)
+        elif len(set(outs)) != 1:
+            bad("seeded-prior-draw-independent-of-the-hash-seed")
+        return fails
     if inp["what"] == "streams":
         # successive prior draws on ONE generator continue its stream (they are not the same numbers again), and the generator is advanced
         g = np.random.default_rng(inp["seed"])
